@@ -1,6 +1,7 @@
 package txmgr
 
 import (
+	"bytes"
 	"encoding/binary"
 	"fmt"
 	"sort"
@@ -550,7 +551,22 @@ func (s *UtxoStore) deleteUnminedInputs(tx mwdb.DBTransaction, rec *TxRecord) er
 	for _, input := range rec.MsgTx.TxIn {
 		prevOut := &input.PreviousOutPoint
 		k := canonicalOutPoint(&prevOut.Hash, prevOut.Index)
-		if len(existsRawUnminedInput(nsUnminedInputs, k)) > 0 {
+		spenders := existsRawUnminedInput(nsUnminedInputs, k)
+		if len(spenders) > 0 {
+			// the entry lists every unmined transaction spending this output: drop only
+			// rec, another pending spender of the same output keeps its marker
+			remaining := make([]byte, 0, len(spenders))
+			for ; len(spenders) >= wire.HashSize; spenders = spenders[wire.HashSize:] {
+				if !bytes.Equal(spenders[:wire.HashSize], rec.Hash[:]) {
+					remaining = append(remaining, spenders[:wire.HashSize]...)
+				}
+			}
+			if len(remaining) > 0 {
+				if err := nsUnminedInputs.Put(k, remaining); err != nil {
+					return err
+				}
+				continue
+			}
 			if err := deleteRawUnminedInput(nsUnminedInputs, k); err != nil {
 				return err
 			}
